@@ -9,15 +9,15 @@ V = Path(__file__).resolve().parent.parent
 sys.path.insert(0, str(V / "harness"))
 import core  # noqa
 specs = set()
+import importlib.util
+sys.path.insert(0, str(V / "harness" / "props"))
 for f in sorted((V / "harness" / "props").glob("C*.py")):
-    src = f.read_text()
-    if "MODELLED" not in src:
+    if "MODELLED" not in f.read_text():
         continue
-    ns = {}
-    import ast
-    for node in ast.parse(src).body:
-        if isinstance(node, ast.Assign) and any(getattr(t, "id", None) == "MODELLED" for t in node.targets):
-            specs |= set(eval(compile(ast.Expression(node.value), str(f), 'eval'), {}))  # our own files: lists, + and comprehensions
+    spec = importlib.util.spec_from_file_location(f"props_{f.stem}", f)
+    mod = importlib.util.module_from_spec(spec)
+    spec.loader.exec_module(mod)          # our own modules; they import evo lazily inside functions
+    specs |= set(mod.MODELLED)
 fp = core.fingerprints(sorted(specs))
 bad = {k: v for k, v in fp.items() if v in ("missing",) or v.startswith("unreadable")}
 if bad:
